@@ -343,7 +343,8 @@ def dependency_patch(on: bool):
     import numpy as np
     from moptipy.algorithms.so.vector import cmaes_lib
     orig = cmaes_lib.num_to_str
-    cmaes_lib.num_to_str = lambda v: orig(v.item() if isinstance(v, np.generic) else v)
+    # (the same table row also holds the bool `is_small_pop`, which num_to_str rejects as well)
+    cmaes_lib.num_to_str = lambda v: str(v) if isinstance(v, bool) else orig(v.item() if isinstance(v, np.generic) else v)
     try:
         yield
     finally:
